@@ -497,3 +497,227 @@ func c04ParamIsCursorByte(p *Program, fn *ssa.Function, prm *ssa.Parameter, lexT
 	}
 	return true
 }
+
+// c04CRLFOnce (C04.R2, second half): a scanner that counts a line for a carriage return must swallow a line feed that
+// follows it in the same step — otherwise the LF is seen again on the next iteration and the pair is counted as two
+// lines. For every branch entered for exactly the byte 0x0D in which the line counter is incremented, the paths to the
+// next loop iteration (or return) are enumerated with the constant advances of the byte cursor summed up: a path that
+// took the "next byte is LF" edge of a comparison with '\n' must have advanced by two, every other path by one, and at
+// least one path must make that comparison.
+func c04CRLFOnce(c *Ctx, r *RuleResult, lexT *types.Named) {
+	p := c.P
+	n := 0
+	for _, fn := range p.FuncsIn("lexer") {
+		if len(fn.Blocks) == 0 {
+			continue
+		}
+		// the byte read at the cursor
+		var scrV ssa.Value
+		var scrIn ssa.Instruction
+		allInstrs(fn, func(in ssa.Instruction) {
+			idx, v, ok := strIndex(in)
+			if ok && isByteVal(v) && isFieldLoad(stripChange(idx), lexT, "end") && scrV == nil {
+				scrV, scrIn = v, in
+			}
+		})
+		if scrV == nil {
+			for _, prm := range fn.Params {
+				if isByteVal(prm) && fn.Parent() == nil && c04ParamIsCursorByte(p, fn, prm, lexT) {
+					scrV, scrIn = prm, fn.Blocks[0].Instrs[0]
+				}
+			}
+		}
+		if scrV == nil {
+			continue
+		}
+		sets := reachSets(fn, scrV, scrIn.Block(), ivFull(0xFF))
+		headers, bodies := loopsOf(fn)
+		isHeader := map[*ssa.BasicBlock]bool{}
+		for _, h := range headers {
+			isHeader[h] = true
+		}
+		_ = bodies
+		isCR := func(b *ssa.BasicBlock) bool { return sets[b].eq(ivPoints(0x0D)) }
+		// entries of CR regions
+		for _, b := range fn.Blocks {
+			if !isCR(b) {
+				continue
+			}
+			entry := false
+			for _, pd := range b.Preds {
+				if !isCR(pd) {
+					entry = true
+				}
+			}
+			if !entry {
+				continue
+			}
+			// does the region count a line?
+			counts := false
+			region := reachAvoiding(b, func(x *ssa.BasicBlock) bool { return isHeader[x] || !isCR(x) && x != b }, nil)
+			region[b] = true
+			for x := range region {
+				for _, in := range x.Instrs {
+					if st, ok := in.(*ssa.Store); ok {
+						if fa, ok := st.Addr.(*ssa.FieldAddr); ok {
+							if nn, f, _, _ := fieldOf(fa); nn != nil && sameNamed(nn, lexT) && f == "line" {
+								counts = true
+							}
+						}
+					}
+					if ci, ok := in.(ssa.CallInstruction); ok {
+						if g := ci.Common().StaticCallee(); g != nil && g.Pkg == fn.Pkg && len(storesToField([]*ssa.Function{g}, lexT, "line")) > 0 {
+							counts = true
+						}
+					}
+				}
+			}
+			if !counts {
+				continue
+			}
+			n++
+			type pst struct {
+				b     *ssa.BasicBlock
+				delta int64
+				lf    int // -1 not compared, 0 not LF, 1 LF
+			}
+			var bad string
+			sawLF := false
+			seen := map[string]bool{}
+			var walk func(s pst, from *ssa.BasicBlock)
+			walk = func(s pst, from *ssa.BasicBlock) {
+				if bad != "" {
+					return
+				}
+				key := fmt.Sprintf("%d|%d|%d", s.b.Index, s.delta, s.lf)
+				if seen[key] {
+					return
+				}
+				seen[key] = true
+				d := s.delta
+				for _, in := range s.b.Instrs {
+					switch x := in.(type) {
+					case *ssa.Store:
+						if fa, ok := x.Addr.(*ssa.FieldAddr); ok {
+							if nn, f, _, _ := fieldOf(fa); nn != nil && sameNamed(nn, lexT) && f == "end" {
+								if bo, ok := x.Val.(*ssa.BinOp); ok && isFieldLoad(bo.X, lexT, "end") {
+									if k, ok := constNum(bo.Y); ok {
+										if bo.Op == token.SUB {
+											k = -k
+										}
+										d += k
+									} else {
+										d += 100 // a variable width: not a CR/LF step
+									}
+								}
+							}
+						}
+					case ssa.CallInstruction:
+						if g := x.Common().StaticCallee(); g != nil && p.inModule(g) && len(g.Blocks) > 0 {
+							if isStepper(p, g, lexT) {
+								if k := stepperDelta(g, lexT); k != nil {
+									d += k["end"]
+									continue
+								}
+							}
+							// advance(n): the byte cursor moves by a parameter, here a constant
+							for _, st2 := range storesToField([]*ssa.Function{g}, lexT, "end") {
+								bo, ok := st2.store.Val.(*ssa.BinOp)
+								if !ok || bo.Op != token.ADD || !isFieldLoad(bo.X, lexT, "end") {
+									d += 100
+									continue
+								}
+								if prm, isP := bo.Y.(*ssa.Parameter); isP {
+									if j := paramIndex(g, prm); j >= 0 && j < len(x.Common().Args) {
+										if k, isK := constNum(x.Common().Args[j]); isK {
+											d += k
+											continue
+										}
+									}
+									d += 100
+								} else if k, isK := constNum(bo.Y); isK {
+									d += k
+								} else {
+									d += 100
+								}
+							}
+						}
+					}
+				}
+				end := func(where string) {
+					want := int64(1)
+					if s.lf == 1 {
+						want = 2
+						sawLF = true
+					}
+					if d != want {
+						lfTxt := "is not a line feed (or is not looked at)"
+						if s.lf == 1 {
+							lfTxt = "is a line feed"
+						}
+						bad = fmt.Sprintf("on a path to the %s on which the byte after the carriage return %s, the byte cursor has advanced by %d instead of %d", where, lfTxt, d, want)
+					}
+				}
+				if _, isRet := s.b.Instrs[len(s.b.Instrs)-1].(*ssa.Return); isRet {
+					end("return")
+					return
+				}
+				if ifi, ok := s.b.Instrs[len(s.b.Instrs)-1].(*ssa.If); ok && len(s.b.Succs) == 2 {
+					// a comparison of a byte of the input with '\n'
+					cd := normCond(Cond{V: ifi.Cond, True: true})
+					if bo, ok := cd.V.(*ssa.BinOp); ok && (bo.Op == token.EQL || bo.Op == token.NEQ) {
+						var other ssa.Value
+						if k, isK := constNum(bo.Y); isK && k == '\n' {
+							other = bo.X
+						} else if k, isK := constNum(bo.X); isK && k == '\n' {
+							other = bo.Y
+						}
+						if other != nil {
+							if oi, isI := stripChange(other).(ssa.Instruction); isI {
+								if _, v, isIdx := strIndex(oi); isIdx && isByteVal(v) && !sameScrutinee(other, scrV) {
+									for i, sc := range s.b.Succs {
+										taken := (i == 0) == cd.True
+										isLF := (bo.Op == token.EQL) == taken
+										ns := pst{sc, d, 0}
+										if isLF {
+											ns.lf = 1
+										}
+										if isHeader[sc] {
+											s2 := s
+											s2.lf = ns.lf
+											s = s2
+											end("next iteration")
+											continue
+										}
+										walk(ns, s.b)
+									}
+									return
+								}
+							}
+						}
+					}
+				}
+				for _, sc := range s.b.Succs {
+					if isHeader[sc] {
+						end("next iteration")
+						continue
+					}
+					walk(pst{sc, d, s.lf}, s.b)
+				}
+			}
+			walk(pst{b, 0, -1}, nil)
+			site := fmt.Sprintf("carriage-return branch at %s in %s", p.Pos(lastPos(b)), p.FuncName(fn))
+			switch {
+			case bad != "":
+				r.Fail(lastPos(b), p.FuncName(fn), "CR LF is not consumed as one line terminator", bad+": a CRLF pair is either counted as two line terminators (every later line number is one too high) or half of it is left for the next token")
+			case !sawLF:
+				r.Fail(lastPos(b), p.FuncName(fn), "the byte after a carriage return is never compared with LF", "a line is counted for the carriage return and nothing looks for a line feed after it: the LF of a CRLF pair is seen on the next iteration and counted as another line")
+			default:
+				r.OK(site, "CR advances by one, CR LF by two, before the next iteration")
+			}
+		}
+	}
+	if n == 0 {
+		r.AnchorLost("a carriage-return branch that counts a line in the lexer")
+	}
+}
